@@ -7,6 +7,7 @@ import (
 	"encoding/json"
 	"fmt"
 	"reflect"
+	"sync/atomic"
 	"testing"
 	"testing/synctest"
 	"time"
@@ -15,6 +16,16 @@ import (
 
 	"verif/harness/internal/vk"
 )
+
+// slowEv takes (virtual) time to encode.
+type slowEv ev
+
+var slowEncode atomic.Int64
+
+func (e slowEv) MarshalJSON() ([]byte, error) {
+	time.Sleep(time.Duration(slowEncode.Load()))
+	return json.Marshal(ev(e))
+}
 
 // slowStore takes (virtual) time to append; it either honours its context or cannot abort a write
 // in progress.
@@ -51,60 +62,70 @@ func TestC09SlowStore(t *testing.T) {
 		for _, timeout := range []time.Duration{0, 10 * time.Millisecond, time.Hour} {
 			for _, honour := range []bool{true, false} {
 				for _, async := range []bool{false, true} {
-					idx++
-					if !run.Mine(idx) {
-						continue
-					}
-					sig := fmt.Sprintf("delay=%v timeout=%v honour=%v async=%v", delay, timeout, honour, async)
-					synctest.Test(t, func(t *testing.T) {
-						st := &slowStore{inner: ebu.NewMemoryStore(), delay: delay, honourCtx: honour}
-						opts := []ebu.Option{ebu.WithStore(st), ebu.WithPersistenceErrorHandler(func(any, reflect.Type, error) {})}
-						if timeout > 0 {
-							opts = append(opts, ebu.WithPersistenceTimeout(timeout))
+					for _, enc := range []time.Duration{0, 50 * time.Millisecond} { // (virtual) time the event takes to encode
+						idx++
+						if !run.Mine(idx) {
+							continue
 						}
-						bus := ebu.New(opts...)
-						readable := map[int]bool{}
-						h := func(e ev) {
-							evs, _, _ := st.inner.Read(context.Background(), ebu.OffsetOldest, 0)
-							for _, x := range evs {
-								var d ev
-								if json.Unmarshal(x.Data, &d) == nil && d.ID == e.ID {
-									readable[e.ID] = true
+						slowEncode.Store(int64(enc))
+						sig := fmt.Sprintf("delay=%v timeout=%v honour=%v async=%v encode=%v", delay, timeout, honour, async, enc)
+						synctest.Test(t, func(t *testing.T) {
+							st := &slowStore{inner: ebu.NewMemoryStore(), delay: delay, honourCtx: honour}
+							opts := []ebu.Option{ebu.WithStore(st), ebu.WithPersistenceErrorHandler(func(any, reflect.Type, error) {})}
+							if timeout > 0 {
+								opts = append(opts, ebu.WithPersistenceTimeout(timeout))
+							}
+							bus := ebu.New(opts...)
+							readable := map[int]bool{}
+							h := func(e ev) {
+								evs, _, _ := st.inner.Read(context.Background(), ebu.OffsetOldest, 0)
+								for _, x := range evs {
+									var d ev
+									if json.Unmarshal(x.Data, &d) == nil && d.ID == e.ID {
+										readable[e.ID] = true
+									}
 								}
 							}
-						}
-						if async {
-							done := make(chan struct{}, 16)
-							ebu.Subscribe(bus, func(e ev) { h(e); done <- struct{}{} }, ebu.Async(), ebu.Sequential())
-						} else {
-							ebu.Subscribe(bus, h)
-						}
-						for id := 1; id <= 4; id++ {
-							ebu.Publish(bus, ev{ID: id, S: "slow"})
-						}
-						bus.Wait()
-						time.Sleep(10 * time.Second) // let abandoned work (if any) finish
-						synctest.Wait()
-						evs, _, _ := st.inner.Read(context.Background(), ebu.OffsetOldest, 0)
-						var order []int
-						for _, x := range evs {
-							var d ev
-							json.Unmarshal(x.Data, &d)
-							order = append(order, d.ID)
-							if !readable[d.ID] {
-								run.Violation("slow-store:not-readable-before-delivery", fmt.Sprintf("%s: the record of publish #%d is in the log, but it was not readable when that publish's handler ran", sig, d.ID), map[string]any{"scenario": sig, "log": order})
+							if async {
+								done := make(chan struct{}, 16)
+								ebu.Subscribe(bus, func(e ev) { h(e); done <- struct{}{} }, ebu.Async(), ebu.Sequential())
+								ebu.Subscribe(bus, func(e slowEv) { h(ev(e)); done <- struct{}{} }, ebu.Async(), ebu.Sequential())
+							} else {
+								ebu.Subscribe(bus, h)
+								ebu.Subscribe(bus, func(e slowEv) { h(ev(e)) })
 							}
-						}
-						for i := 1; i < len(order); i++ {
-							if order[i] <= order[i-1] {
-								run.Violation("slow-store:log-order", fmt.Sprintf("%s: log %v is not publish order / has repeats", sig, order), map[string]any{"scenario": sig})
+							for id := 1; id <= 4; id++ {
+								if enc > 0 {
+									ebu.Publish(bus, slowEv{ID: id, S: "slow"})
+								} else {
+									ebu.Publish(bus, ev{ID: id, S: "slow"})
+								}
 							}
-						}
-						if (timeout == 0 || timeout > delay) && len(order) != 4 {
-							run.Violation("slow-store:record-count", fmt.Sprintf("%s: 4 publishes, no timeout shorter than the append: the log holds %v", sig, order), map[string]any{"scenario": sig})
-						}
-					})
-					run.Case(sig, timeout > 0 && timeout < delay)
+							bus.Wait()
+							time.Sleep(10 * time.Second) // let abandoned work (if any) finish
+							synctest.Wait()
+							evs, _, _ := st.inner.Read(context.Background(), ebu.OffsetOldest, 0)
+							var order []int
+							for _, x := range evs {
+								var d ev
+								json.Unmarshal(x.Data, &d)
+								order = append(order, d.ID)
+								if !readable[d.ID] {
+									run.Violation("slow-store:not-readable-before-delivery", fmt.Sprintf("%s: the record of publish #%d is in the log, but it was not readable when that publish's handler ran", sig, d.ID), map[string]any{"scenario": sig, "log": order})
+								}
+							}
+							for i := 1; i < len(order); i++ {
+								if order[i] <= order[i-1] {
+									run.Violation("slow-store:log-order", fmt.Sprintf("%s: log %v is not publish order / has repeats", sig, order), map[string]any{"scenario": sig})
+								}
+							}
+							// (the persistence timeout bounds the append, not the encoding that precedes it)
+							if (timeout == 0 || timeout > delay) && len(order) != 4 {
+								run.Violation("slow-store:record-count", fmt.Sprintf("%s: 4 publishes, no timeout shorter than the append: the log holds %v", sig, order), map[string]any{"scenario": sig})
+							}
+						})
+						run.Case(sig, timeout > 0 && timeout < delay)
+					}
 				}
 			}
 		}
